@@ -810,4 +810,196 @@ theorem complete_fail_refines {s : State κ} {o : OState κ} (f : Nat) (fl : Fli
   obtain ⟨q1, q2⟩ := setDone_refines f fl1 h2 h3 g1 (by rw [g2, ha]; simp) (fun _ => g3)
   exact ⟨o', h1, q1, q2⟩
 
+/-! ### a waiter observes its flight -/
+
+theorem waiting_facts {s : State κ} {c f : Nat} {cl : Caller κ} {fl : Flight κ} {e : κ × Nat} (hI : Inv s)
+    (hc : s.callers[c]? = some cl) (hpc : cl.pc = .waiting f) (hf : s.flights[f]? = some fl)
+    (he : cl.entries[cl.got.length]? = some e) :
+    cl.got.length < cl.entries.length ∧ GotOK s.flights cl.banned cl.entries cl.got ∧ fl.key = e.1 ∧ cl.banned f = false := by
+  have hp := (hI.callers c cl hc).pcs
+  rw [hpc] at hp
+  obtain ⟨h1, h2, fl', e', g1, g2, g3, g4⟩ := hp
+  rw [hf] at g1; injection g1 with g1; subst g1
+  rw [he] at g2; injection g2 with g2; subst g2
+  exact ⟨h1, h2, g3, g4⟩
+
+theorem observe_fail_refines {s : State κ} {o : OState κ} (c f : Nat) (cl : Caller κ) (fl : Flight κ) (e : κ × Nat)
+    (hI : Inv s) (hR : Rel s o) (hc : s.callers[c]? = some cl) (hpc : cl.pc = .waiting f)
+    (hf : s.flights[f]? = some fl) (he : cl.entries[cl.got.length]? = some e) (hd : fl.done = true) (ha : fl.ans = some none) :
+    ∃ o', Obs.run o [.ret c (.prepErr f)] = some o' ∧
+      Inv { s with callers := s.callers.set c { cl with pc := .returned } } ∧
+      Rel { s with callers := s.callers.set c { cl with pc := .returned } } o' := by
+  obtain ⟨_, _, hk, hb⟩ := waiting_facts hI hc hpc hf he
+  have hok := hI.callers c cl hc
+  obtain ⟨ocl, q1, q2, q3, q4⟩ := hR.call c cl hc
+  rw [hpc] at q4
+  have ho : o.flights f = some ⟨fl.key, some none, true⟩ := by
+    rw [hR.flight f, absFlight_ans hf (by rw [ha]; simp), ha, hI.failRem f fl hf hd ha]
+  have hkey : hasKey ocl.entries fl.key = true := by rw [q2, hk]; exact hasKey_of_getElem? he
+  refine ⟨{ o with callers := o.callers.set c { ocl with pc := .returned } }, ?_, ?_, ?_⟩
+  · simp only [Obs.run, Obs.step, q1]
+    rw [if_pos ⟨q4, by rw [q3]; exact hb⟩]
+    simp only [ho, hkey, and_self, if_true]
+    rfl
+  · refine inv_updCaller hI hc ⟨hok.ne, hok.ban, trivial⟩ ?_
+    intro f' fl' hw hf' ha'
+    rw [hpc] at hw; injection hw with hw; subst hw
+    rw [hf] at hf'; injection hf' with hf'; subst hf'
+    rw [ha] at ha'; cases ha'
+  · exact rel_updCaller { ocl with pc := .returned } hR hc q2 q3 rfl
+
+theorem observe_count_refines {s : State κ} {o : OState κ} (c f : Nat) (cl : Caller κ) (fl : Flight κ) (e : κ × Nat)
+    (id : Id) (nc : Nat)
+    (hI : Inv s) (hR : Rel s o) (hc : s.callers[c]? = some cl) (hpc : cl.pc = .waiting f)
+    (hf : s.flights[f]? = some fl) (he : cl.entries[cl.got.length]? = some e)
+    (ha : fl.ans = some (some (id, nc))) (hne : e.2 ≠ nc) :
+    ∃ o', Obs.run o [.ret c .countErr] = some o' ∧
+      Inv { s with callers := s.callers.set c { cl with pc := .returned } } ∧
+      Rel { s with callers := s.callers.set c { cl with pc := .returned } } o' := by
+  obtain ⟨_, _, hk, hb⟩ := waiting_facts hI hc hpc hf he
+  have hok := hI.callers c cl hc
+  obtain ⟨ocl, q1, q2, q3, q4⟩ := hR.call c cl hc
+  rw [hpc] at q4
+  have ho : o.flights f = some ⟨fl.key, some (some (id, nc)), fl.removed⟩ := by
+    rw [hR.flight f, absFlight_ans hf (by rw [ha]; simp), ha]
+  have hmis : countMismatch o ocl = true := by
+    unfold countMismatch
+    rw [q2]
+    refine List.any_eq_true.2 ⟨e, mem_of_getElem? he, List.any_eq_true.2 ⟨f, hR.known f (by rw [ho]; simp), ?_⟩⟩
+    rw [q3, hb, ho]
+    have : nc ≠ e.2 := fun h => hne h.symm
+    simp [hk, this]
+  refine ⟨{ o with callers := o.callers.set c { ocl with pc := .returned } }, ?_, ?_, ?_⟩
+  · simp only [Obs.run, Obs.step, q1]
+    rw [if_pos ⟨q4, hmis⟩]
+    rfl
+  · refine inv_updCaller hI hc ⟨hok.ne, hok.ban, trivial⟩ ?_
+    intro f' fl' hw hf' ha'
+    rw [hpc] at hw; injection hw with hw; subst hw
+    rw [hf] at hf'; injection hf' with hf'; subst hf'
+    rw [ha] at ha'; cases ha'
+  · exact rel_updCaller { ocl with pc := .returned } hR hc q2 q3 rfl
+
+omit [DecidableEq κ] in
+theorem idOf_eq {s : State κ} {f : Nat} {fl : Flight κ} {id : Id} {n : Nat} (hf : s.flights[f]? = some fl)
+    (ha : fl.ans = some (some (id, n))) : idOf s f = id := by
+  unfold idOf
+  simp [hf, ha]
+
+theorem okEntries_of_gotOK {s : State κ} {o : OState κ} (hR : Rel s o) (b : Nat → Bool) :
+    ∀ (es : List (κ × Nat)) (fs : List Nat), GotOK s.flights b es fs → fs.length = es.length →
+      okEntries o b es (fs.map (idOf s)) = true
+  | [], [], _, _ => rfl
+  | [], _ :: _, h, _ => by simp [GotOK] at h
+  | _ :: _, [], _, hl => by simp at hl
+  | e :: es, f :: fs, ⟨⟨fl, id, h1, h2, h3, h4⟩, hr⟩, hl => by
+    have hrec := okEntries_of_gotOK hR b es fs hr (by simpa using hl)
+    have ho : o.flights f = some ⟨fl.key, fl.ans, fl.removed⟩ := by
+      rw [hR.flight f, absFlight_ans h1 (by rw [h3]; simp)]
+    have hj : justifies o b e.1 e.2 (idOf s f) f = true := by
+      unfold justifies
+      rw [ho, idOf_eq h1 h3]
+      simp [h4, h2, h3]
+    have hany : o.known.any (justifies o b e.1 e.2 (idOf s f)) = true :=
+      List.any_eq_true.2 ⟨f, hR.known f (by rw [ho]; simp), hj⟩
+    simp only [List.map_cons, okEntries, hany, hrec, Bool.and_self]
+
+theorem observe_next_ok {s : State κ} {c f : Nat} {cl : Caller κ} {fl : Flight κ} {e : κ × Nat} {id : Id} (hI : Inv s)
+    (hc : s.callers[c]? = some cl) (hpc : cl.pc = .waiting f) (hf : s.flights[f]? = some fl)
+    (he : cl.entries[cl.got.length]? = some e) (ha : fl.ans = some (some (id, e.2))) :
+    GotOK s.flights cl.banned cl.entries (cl.got ++ [f]) := by
+  obtain ⟨_, h2, hk, hb⟩ := waiting_facts hI hc hpc hf he
+  exact gotOK_snoc _ _ _ _ f e h2 he ⟨fl, id, hf, hk, ha, hb⟩
+
+theorem observe_exec_refines {s : State κ} {o : OState κ} (c f : Nat) (cl : Caller κ) (fl : Flight κ) (e : κ × Nat)
+    (id : Id) (a : XAns)
+    (hI : Inv s) (hR : Rel s o) (hc : s.callers[c]? = some cl) (hpc : cl.pc = .waiting f)
+    (hf : s.flights[f]? = some fl) (he : cl.entries[cl.got.length]? = some e)
+    (ha : fl.ans = some (some (id, e.2))) (hlen : (cl.got ++ [f]).length = cl.entries.length) :
+    ∃ o', Obs.run o [.exec c ((cl.got ++ [f]).map (idOf s)) a] = some o' ∧
+      Inv { s with callers := s.callers.set c { cl with got := cl.got ++ [f], pc := .answered a, banned := isRemoved s } } ∧
+      Rel { s with callers := s.callers.set c { cl with got := cl.got ++ [f], pc := .answered a, banned := isRemoved s } } o' := by
+  have hgot := observe_next_ok hI hc hpc hf he ha
+  have hok := hI.callers c cl hc
+  obtain ⟨ocl, q1, q2, q3, q4⟩ := hR.call c cl hc
+  rw [hpc] at q4
+  have hoke : okEntries o ocl.banned ocl.entries ((cl.got ++ [f]).map (idOf s)) = true := by
+    rw [q2, q3]; exact okEntries_of_gotOK hR _ _ _ hgot hlen
+  refine ⟨{ o with callers := o.callers.set c { ocl with pc := .awaiting a, banned := removedNow o } }, ?_, ?_, ?_⟩
+  · simp only [Obs.run, Obs.step, q1]
+    rw [if_pos ⟨q4, hoke⟩]
+  · refine inv_updCaller hI hc ⟨hok.ne, fun g hg => hg, trivial⟩ ?_
+    intro f' fl' hw hf' ha'
+    rw [hpc] at hw; injection hw with hw; subst hw
+    rw [hf] at hf'; injection hf' with hf'; subst hf'
+    rw [ha] at ha'; cases ha'
+  · exact rel_updCaller { ocl with pc := .awaiting a, banned := removedNow o } hR hc q2 (removedNow_eq hR) rfl
+
+theorem observe_more_refines {s : State κ} {o : OState κ} (c f : Nat) (cl : Caller κ) (fl : Flight κ) (e : κ × Nat) (id : Id)
+    (hI : Inv s) (hR : Rel s o) (hc : s.callers[c]? = some cl) (hpc : cl.pc = .waiting f)
+    (hf : s.flights[f]? = some fl) (he : cl.entries[cl.got.length]? = some e)
+    (ha : fl.ans = some (some (id, e.2))) (hlen : (cl.got ++ [f]).length ≠ cl.entries.length) :
+    Inv { s with callers := s.callers.set c { cl with got := cl.got ++ [f], pc := .start } } ∧
+    Rel { s with callers := s.callers.set c { cl with got := cl.got ++ [f], pc := .start } } o := by
+  have hgot := observe_next_ok hI hc hpc hf he ha
+  obtain ⟨h1, _, _, _⟩ := waiting_facts hI hc hpc hf he
+  have hok := hI.callers c cl hc
+  refine ⟨inv_updCaller hI hc ⟨hok.ne, hok.ban, ?_⟩ ?_, rel_updCaller_same hR hc rfl rfl ?_⟩
+  · refine ⟨?_, hgot⟩
+    simp at hlen ⊢
+    omega
+  · intro f' fl' hw hf' ha'
+    rw [hpc] at hw; injection hw with hw; subst hw
+    rw [hf] at hf'; injection hf' with hf'; subst hf'
+    rw [ha] at ha'; cases ha'
+  · intro p hp; rw [hpc] at hp; exact hp
+
+/-! ### the answer to the frame -/
+
+theorem finish_ret_refines {s : State κ} {o : OState κ} (c : Nat) (cl : Caller κ) (a : XAns) (out : Outcome)
+    (hao : (a = .ok ∧ out = .ok) ∨ (a = .err ∧ out = .execErr))
+    (hI : Inv s) (hR : Rel s o) (hc : s.callers[c]? = some cl) (hpc : cl.pc = .answered a) :
+    ∃ o', Obs.run o [.ret c out] = some o' ∧
+      Inv { s with callers := s.callers.set c { cl with pc := .returned } } ∧
+      Rel { s with callers := s.callers.set c { cl with pc := .returned } } o' := by
+  have hok := hI.callers c cl hc
+  obtain ⟨ocl, q1, q2, q3, q4⟩ := hR.call c cl hc
+  rw [hpc] at q4
+  have q4' : ocl.pc = .awaiting a := q4
+  refine ⟨{ o with callers := o.callers.set c { ocl with pc := .returned } }, ?_, ?_, ?_⟩
+  · rcases hao with ⟨h1, h2⟩ | ⟨h1, h2⟩ <;> subst h1 <;> subst h2 <;>
+      (simp only [Obs.run, Obs.step, q1]; rw [if_pos q4']; rfl)
+  · refine inv_updCaller hI hc ⟨hok.ne, hok.ban, trivial⟩ ?_
+    intro f' fl' hw; rw [hpc] at hw; cases hw
+  · exact rel_updCaller { ocl with pc := .returned } hR hc q2 q3 rfl
+
+theorem finish_unprep_refines {s : State κ} {o : OState κ} (c : Nat) (cl : Caller κ) (id : Id) (r : State κ × List (Ev κ))
+    (hr : r = (match unprepKey s cl id with
+      | some k => evictIfMatch s k id
+      | none => (s, [])))
+    (hI : Inv s) (hR : Rel s o) (hc : s.callers[c]? = some cl) (hpc : cl.pc = .answered (.unprep id)) :
+    ∃ o', Obs.run o r.2 = some o' ∧
+      Inv { r.1 with callers := r.1.callers.set c { cl with got := [], pc := .start } } ∧
+      Rel { r.1 with callers := r.1.callers.set c { cl with got := [], pc := .start } } o' := by
+  have hstep : ∃ o', Obs.run o r.2 = some o' ∧ Inv r.1 ∧ Rel r.1 o' ∧ r.1.callers = s.callers := by
+    rw [hr]
+    cases unprepKey s cl id with
+    | none => exact ⟨o, rfl, hI, hR, rfl⟩
+    | some k => exact evictIfMatch_refines k id hI hR
+  obtain ⟨o', h1, h2, h3, h4⟩ := hstep
+  have hc' : r.1.callers[c]? = some cl := by rw [h4]; exact hc
+  have hok := h2.callers c cl hc'
+  refine ⟨o', h1, inv_updCaller h2 hc' ⟨hok.ne, hok.ban, ?_⟩ ?_, rel_updCaller_same h3 hc' rfl rfl ?_⟩
+  · refine ⟨?_, by simp [GotOK]⟩
+    have := hok.ne
+    cases hes : cl.entries with
+    | nil => exact absurd hes this
+    | cons _ _ => simp
+  · intro f' fl' hw; rw [hpc] at hw; cases hw
+  · intro p hp
+    rw [hpc] at hp
+    have hp' : p = .awaiting (.unprep id) := hp
+    subst hp'
+    rfl
+
 end C14Conn
